@@ -18,3 +18,8 @@ mod ringbuffer;
 pub(crate) mod scratch;
 pub(crate) mod sequence_execution;
 pub(crate) mod sequence_section_decoder;
+
+#[cfg(killingspark_zstd_rs_verif)]
+pub use decode_buffer::DecodeBuffer as VerifDecodeBuffer;
+#[cfg(killingspark_zstd_rs_verif)]
+pub use ringbuffer::RingBuffer as VerifRingBuffer;
